@@ -120,6 +120,50 @@ def sliceL {α : Type} (l : List α) (lo hi : Int) : List α :=
   let norm := fun (x : Int) => if x < 0 then (if x + n < 0 then 0 else x + n) else (if x > n then n else x)
   (l.drop (norm lo).toNat).take ((norm hi).toNat - (norm lo).toNat)
 
+/-! ### hex strings of 64+ digits -/
+
+/-- big-endian bytes of a natural number, minimal length (empty for 0) -/
+def natBytesBE (n : Nat) : Bytes := (Py.leBytes ((Py.natBits n + 7) / 8) n).reverse
+
+/-- number of hex digits of `f"{v:064x}"` for `v ≥ 0` -/
+def hexLen64 (v : Nat) : Nat := if v < 2 ^ 256 then 64 else (Py.natBits v + 3) / 4
+
+/-- hex digits (as numbers) of `f"{v:064x}"` for `v ≥ 0` -/
+def hexDigits64 (v : Nat) : List Nat := (List.range (hexLen64 v)).reverse.map fun i => (v >>> (4 * i)) % 16
+
+def pairUp : List Nat → Bytes
+  | a :: b :: rest => UInt8.ofNat (a * 16 + b) :: pairUp rest
+  | _ => []
+
+/-- `int(h, 16)` / `h_to_i(h)` for a hex string of an even number of digits given as the bytes it denotes: `ValueError` on the empty
+string -/
+def hToI (b : Bytes) : Except PyErr Int :=
+  if b.isEmpty then .error .valueError else .ok (Py.ofBE b : Nat)
+
+/-- `bytes.fromhex(f"{a:064x}{b:064x}…")`: a negative value prints a minus sign and an odd total number of digits is not hex either
+(`ValueError`); values below 2^256 — the case that matters — print exactly 64 digits each -/
+def fromhexFmt64 (vs : List Int) : Except PyErr Bytes :=
+  if vs.any (· < 0) then .error .valueError
+  else if vs.all (· < 2 ^ 256) then .ok (vs.flatMap fun v => (Py.leBytes 32 v.toNat).reverse)
+  else
+    let ds := vs.flatMap fun v => hexDigits64 v.toNat
+    if ds.length % 2 = 1 then .error .valueError else .ok (pairUp ds)
+
+/-- `f"{a:064x}…"` kept as a hex *string*: representable as the bytes it denotes only when non-negative with an even number of digits
+(otherwise `unsupported`: outside the modelled subset, never a wrong answer) -/
+def hexStrFmt64 (vs : List Int) : Except PyErr Bytes :=
+  if vs.any (· < 0) then .error .unsupported
+  else if vs.all (· < 2 ^ 256) then .ok (vs.flatMap fun v => (Py.leBytes 32 v.toNat).reverse)
+  else
+    let ds := vs.flatMap fun v => hexDigits64 v.toNat
+    if ds.length % 2 = 1 then .error .unsupported else .ok (pairUp ds)
+
+/-- `Q[0]` / `Q[1]` on a value that is a point or `None` (`TypeError` on `None`) -/
+def ptIdx (P : Option (Int × Int)) (i : Nat) : Except PyErr Int :=
+  match P with
+  | none => .error .typeError
+  | some (x, y) => .ok (if i = 0 then x else y)
+
 /-- `math.ceil(num / den)` for a positive denominator, computed exactly -/
 def ceilDiv (num den : Int) : Int := -((-num) / den)
 
